@@ -833,12 +833,27 @@ func (e *Env) call(x *ECall) (TV, error) {
 		if len(x.Args) != 1 {
 			return TV{}, fmt.Errorf("visited takes one argument (a map key)")
 		}
-		if e.fr == nil || e.fr.curMapRange == nil {
-			return TV{}, fmt.Errorf("visited() is only available in the clauses of a loop that ranges over a map")
-		}
 		k, err := e.eval(x.Args[0])
 		if err != nil {
 			return TV{}, err
+		}
+		if e.fr == nil || e.fr.curMapRange == nil {
+			// not a clause of the ranging loop itself (a loop nested in it, an
+			// "at call" clause): the set of the single map range that is live
+			var found []Term
+			var names []string
+			for c, t := range e.cellState().cells {
+				if rk, ok := c.(rangeKey); ok {
+					if _, isMap := rk.r.X.Type().Underlying().(*types.Map); isMap {
+						found = append(found, t)
+						names = append(names, rk.Name())
+					}
+				}
+			}
+			if len(found) != 1 {
+				return TV{}, fmt.Errorf("visited() outside the clauses of a map range loop needs exactly one live map range (found %d %v)", len(found), names)
+			}
+			return TV{sel(found[0], k.T), tBool}, nil
 		}
 		vs, live := e.cellState().cells[rangeKey{e.fr.curMapRange}]
 		if !live {
